@@ -14,4 +14,37 @@ CHECKS = {
         'context (no axioms). Script.parse round trip is proved under the guard inert/no whole-script heuristic; the excluded classes are '
         'known findings with refutation witnesses. Signature/Key acceptance inside Script.parse are oracles.',
    technique='Coq proof (induction, lia) over a hand-written Gallina model + extracted-model differential correspondence'),
+ 'C11': dict(
+   text='Theorems (all byte strings, all alphabet strings, arbitrary hash function) about the Gallina model of base58encode / change_base(58,256) / '
+        'addr_base58_to_pubkeyhash / deserialize_address / bech32 polymod, checksum creation and constant selection: Base58 is a bijection between '
+        'payloads and alphabet strings, an accepted Base58Check address is exactly the canonical encoding of a 21-byte body with a correct checksum '
+        'and a version byte of the regenerated network table, the Bech32 checksum the encoder appends always verifies and the wrong constant never does. '
+        '_bech32_polymod and convertbits are re-translated from the source on every run and proved equal to the model (Glue/Bech32Glue.v). '
+        'Tie: differential correspondence on valid strings of every kind and every single-character edit of sampled strings.',
+   design_ref='DESIGN.md section 6 C11, section 9',
+   note='Closed under the global context. Not proved: convertbits 8->5->8 round trip and hence the composed bech32 decode(encode) identity, single-error '
+        'detection table; WIF / extended-key / BIP38 acceptance paths are checked by the independent oracle only (rejection of every corrupted '
+        'Base58Check string is probabilistic and is not a theorem). Trusted: Coq kernel, extraction, OCaml driver, harness.',
+   technique='Coq proof over hand-written + source-translated Gallina model; extracted-model differential correspondence'),
+ 'C19': dict(
+   text='Two interpreters in Gallina: lib_eval mirrors Script.evaluate / class Stack opcode by opcode (dispatch through the regenerated opcode and '
+        'method tables), core_eval transcribes Bitcoin Core EvalScript. 41 per-opcode agreement theorems (all stacks, oracles, flags), '
+        'agree_straightline for all programs over the agreeing opcode set, decode_num = CScriptNum::set_vch, and vm_compute refutation witnesses for '
+        'every deviating opcode (known findings). Tie: exhaustive opcode x small-stack correspondence of lib_eval against the real evaluate, plus random '
+        'programs with nested conditionals; an independent Python EvalScript is the property-level oracle.',
+   design_ref='DESIGN.md section 6 C19, section 9',
+   note='Closed under the global context. agree_if (conditionals) and standard_spends_agree are not theorems (correspondence only). Hash functions and '
+        'signature checking are oracles shared by both models. 14 known-finding classes (several pinned by the existing tests).',
+   technique='Coq proof (per-opcode lemmas + induction over programs) over two Gallina interpreters; exhaustive differential correspondence'),
+ 'C08': dict(
+   text='State machine Ledger.v (keys, transactions, spent flags, the wallet balance cache) with step mirroring _balance_update, utxos_update, store, '
+        'send, delete, reopen. Theorems: inv_init, inv_step, inv_reachable (every reachable state over guarded histories of any length), '
+        'ledger_consistent (reported balance = sum of unspent outputs = sum of key balances; nothing consumed by a sent transaction is listed), '
+        'select_never_spent, reload_equal. Tie: history differential - random operation sequences on real wallets (sqlite) against the extracted '
+        'model after every operation, second Wallet object on the same file, failing histories shrunk.',
+   design_ref='DESIGN.md section 6 C08, section 9',
+   note='Partial: SQLAlchemy session staleness, sqlite isolation and object lifetime are runtime behaviour reached only through the history '
+        'differential (testing). inv_step carries the guard op_ok (evaluated by the driver on every real step); the excluded class '
+        'restore_resets_spent is a known finding. Closed under the global context.',
+   technique='Coq proof (invariant by induction over operation lists) + history differential against real wallets'),
 }
